@@ -3,6 +3,7 @@ module kvassverif
 go 1.17
 
 require (
+	github.com/anishathalye/porcupine v1.3.0
 	github.com/gin-gonic/gin v1.6.3
 	github.com/go-kit/log v0.2.0
 	github.com/mitchellh/hashstructure/v2 v2.0.1
